@@ -20,7 +20,7 @@ def sh(cmd, **kw):
 
 
 for pid in a.ids:
-    wt = a.wt or {"_b": f"/tmp/wt2_{pid}", "_c": f"/tmp/wt3_{pid}", "_d": f"/tmp/wt4_{pid}", "_e": f"/tmp/wt5_{pid}"}.get(a.suffix, f"/tmp/wt_{pid}")
+    wt = a.wt or {"_b": f"/tmp/wt2_{pid}", "_c": f"/tmp/wt3_{pid}", "_d": f"/tmp/wt4_{pid}", "_e": f"/tmp/wt5_{pid}", "_f": f"/tmp/wt6_{pid}"}.get(a.suffix, f"/tmp/wt_{pid}")
     d = os.path.join(VERIF, "seeded", pid + a.suffix)
     os.makedirs(d, exist_ok=True)
     if os.path.isdir(wt):
